@@ -4,6 +4,7 @@
 package progress
 
 import (
+	"sync/atomic"
 	"time"
 )
 
@@ -40,24 +41,27 @@ func NewSingleTracker(d time.Duration, total int64) *SingleTracker {
 	}
 }
 
+// current and total are updated by the goroutine doing the work while the
+// ticker goroutine started in Start reads them, hence the atomic accesses.
+
 func (t *SingleTracker) Current() int64 {
-	return t.current
+	return atomic.LoadInt64(&t.current)
 }
 
 func (t *SingleTracker) SetCurrent(n int64) {
-	t.current = n
+	atomic.StoreInt64(&t.current, n)
 }
 
 func (t *SingleTracker) Add(n int64) {
-	t.current += n
+	atomic.AddInt64(&t.current, n)
 }
 
 func (t *SingleTracker) Total() int64 {
-	return t.total
+	return atomic.LoadInt64(&t.total)
 }
 
 func (t *SingleTracker) SetTotal(n int64) {
-	t.total = n
+	atomic.StoreInt64(&t.total, n)
 }
 
 func (t *SingleTracker) Start() <-chan Event {
@@ -74,8 +78,8 @@ func (t *SingleTracker) Start() <-chan Event {
 				// the consumer may have stopped reading: do not block past Stop()
 				select {
 				case t.c <- Event{
-					Progress: t.current,
-					Total:    t.total,
+					Progress: t.Current(),
+					Total:    t.Total(),
 				}:
 				case <-t.done:
 					return
